@@ -2,7 +2,7 @@
 # with_variant.sh <diff-file | revert:<commit>> -- <command...>   runs the command with FX_REPO pointing at a scratch copy of /repo
 # with the variant applied; the scratch copy is removed afterwards.
 set -e
-V="$1"; shift; [ "$1" = "--" ] && shift
+V="$1"; [[ "$V" == revert:* ]] || V=$(realpath "$V"); shift; [ "$1" = "--" ] && shift
 S=$(mktemp -d /tmp/fxvar-XXXXXX)
 trap "rm -rf $S" EXIT
 rsync -a --exclude _build --exclude .git /repo/ $S/
@@ -10,7 +10,7 @@ if [[ "$V" == revert:* ]]; then
   git -C /repo show "${V#revert:}" > $S/.var.diff
   (cd $S && patch -R -p1 -s < .var.diff)
 else
-  (cd $S && patch -p1 -s < "$V")
+  (cd $S && patch -p1 -s < "$(realpath "$V")")
 fi
 export FX_REPO=$S
 cd /verif
